@@ -2,6 +2,7 @@
 from __future__ import annotations
 
 import asyncio
+import collections.abc
 import itertools
 import random
 
@@ -32,7 +33,8 @@ def _rand_cfg(rnd, n):
     cfg = []
     for b in range(1, n + 1):
         asyn = rnd.choice(['none', 'none', 'ok', 'ok', 'raise', 'never'])
-        c = {'restore': rnd.choice(['none', 'none', 'ok', 'noinit', 'raise']), 'asyn': asyn,
+        # readerr: the storage fails to deliver the block's record (a damaged file): logged, ignored
+        c = {'restore': rnd.choice(['none', 'none', 'ok', 'noinit', 'raise', 'readerr']), 'asyn': asyn,
              # a routine either ends well before every timeout or never within the largest one:
              # how long a routine with a short timeout may overrun while the simulator awaits
              # another one is not specified (only the bound by the largest init_timeout is)
@@ -162,7 +164,33 @@ def execute(stim):
     def factory(loop, clock):
         async def main():
             circuit = edzed.get_circuit()
-            storage = {}
+            class Storage(collections.abc.MutableMapping):
+                """a storage back-end whose read of certain records fails"""
+                def __init__(self):
+                    self.d, self.bad = {}, set()
+
+                def __getitem__(self, key):
+                    if key in self.bad:
+                        raise RuntimeError('scripted storage read error')
+                    return self.d[key]
+
+                def __setitem__(self, key, value):
+                    self.bad.discard(key)
+                    self.d[key] = value
+
+                def __delitem__(self, key):
+                    self.bad.discard(key)
+                    del self.d[key]
+
+                def __iter__(self):
+                    return iter(self.d)
+
+                def __len__(self):
+                    return len(self.d)
+
+                def __contains__(self, key):
+                    return key in self.d
+            storage = Storage()
             if not stim.get('nostorage'):
                 circuit.set_persistent_data(storage)
             blocks = {}
@@ -183,6 +211,8 @@ def execute(stim):
                 blocks[b] = cls(f'b{b}', conf=c, idx=b, persistent=c['restore'] != 'none', **kw)
                 if c['restore'] != 'none':
                     storage[blocks[b].key] = 'S'
+                    if c['restore'] == 'readerr':
+                        storage.bad.add(blocks[b].key)
 
             if stim['cbfail'] == 'fsm_undef':
                 class Hold(edzed.FSM):
@@ -261,6 +291,8 @@ def execute(stim):
     if stim.get('nostorage'):
         # without a storage nothing is restored (and nothing else changes)
         hcfg = [dict(c, restore='none') for c in cfg]
+    # a record that cannot be read is no saved state at all
+    hcfg = [dict(c, restore='none') if c['restore'] == 'readerr' else c for c in hcfg]
     hdr = {'cfg': hcfg, 'order': order, 'cbfail': bool(stim['cbfail']), 'cleanup': bool(stim['cleanup']),
            'first': stim.get('first', 0)}
     return {'hdr': hdr, 'ev': lines[:cut + 1] + late}
